@@ -5,6 +5,7 @@ CONSTANTS
   Objs = {1, 2}
   MaxRuns = 2
   MaxCb = 1
+  MaxFun = 2
   Emit = TRUE
 SPECIFICATION MCSpec
 INVARIANT E_ExactlyOncePerEvaluation
